@@ -393,7 +393,19 @@ def gp_info(L):
     bnodes = tree_nodes(bt)
     shared_nodes = sum(1 for n in bnodes if id(n) in pop_nodes)
     shared_arr = sum(1 for n in bnodes if n.value is not None and (_base_id(n.value) in pop_arrays or _base_id(n.value) in term_arrays))
+    import treeutil as _T
+    defects = []
+    seen_nodes = {}
+    overlap = 0
+    for k, t in enumerate(list(sp.trees) + [bt]):
+        for dmsg in _T.wf_oracle(t, sp.n_variables, sp.n_dimensions):
+            defects.append((k, dmsg))
+        for n in tree_nodes(t):
+            if id(n) in seen_nodes and seen_nodes[id(n)] != k:
+                overlap += 1
+            seen_nodes[id(n)] = k
     return dict(vals=vals, best_val=np.array(bt.position, dtype=float, copy=True), n_trees=len(sp.trees),
+                defects=defects[:10], overlap=overlap, depths=[t.max_depth for t in sp.trees],
                 n_agents=len(sp.agents), shared_nodes=shared_nodes, shared_arrays=shared_arr,
                 best_tree_id=id(bt), lb=np.array(sp.lb, dtype=float), ub=np.array(sp.ub, dtype=float))
 
